@@ -42,7 +42,13 @@ WIDE = {
     "wide13": [[float(i % 4), float(i // 4)] + [((i * 7 + j * 3) % 5) / 4.0 for j in range(11)] for i in range(16)],
     "wide20": [[((i * 3 + j) % 5) / 4.0 for j in range(18)] + [float(i // 4), float(i % 4)] for i in range(16)],
     "wide64": [[float((i >> (j % 4)) & 1) + 0.25 * ((i + j) % 3) for j in range(64)] for i in range(16)],
+    # the number of discretizer CELLS passes 2^64 (4 bins x 34 columns, 2 bins x 66 columns, 8 bins x 23 columns): rows that share the bins
+    # of every later column and differ in the first one only
+    "cells4x34": [[float(i % 4)] + [float((i // 4 + j) % 4) for j in range(33)] for i in range(16)],
+    "cells2x66": [[float(i % 2)] + [float(((i // 2) >> (j % 3)) & 1) for j in range(65)] for i in range(16)],
+    "cells8x23": [[float(i % 8)] + [float((i // 8 * 3 + j + (i // 8) * (j % 7)) % 8) for j in range(22)] for i in range(16)],
 }
+WIDE_BINNERS = {"cells4x34": ("kb4",), "cells2x66": ("kb2",), "cells8x23": ("kb8",)}
 DESIGNS_ALL = dict(DESIGNS, **WIDE)
 
 
@@ -69,7 +75,7 @@ def cases(tier, seed):
     for dname in WIDE:
         for est in ("reg", "clf"):
             ys_w = [[(i * 5 + 1) % 3 if (i * 5 + 1) % 3 < 2 else 3 for i in range(16)], [(0, 1, 3)[(i // 4 + i) % 3] for i in range(16)]]
-            for bn in ("bins", "kb2", "tree3"):
+            for bn in WIDE_BINNERS.get(dname, ("bins", "kb2", "tree3")):
                 yield {"kind": "partition", "design": dname, "ys": ys_w[:1] if bn != "bins" else ys_w, "est": est, "binners": [bn]}
     # decision_function with 2..5 classes and local models whose scores have one column per class, one column (binary), or one
     # column per PAIR of classes (SVC ovo)
